@@ -6,7 +6,7 @@ all table facts over the extracted tables).  Tie: T1 tables, T3 full result list
 """
 from __future__ import annotations
 
-from .. import evalenv, extract, valgen as V
+from .. import evaluation as E, evalenv, extract, valgen as V
 from ..common import Ctx
 from . import _valcommon as VC
 
@@ -108,7 +108,7 @@ def run(ctx: Ctx) -> None:
         ctx.lean_audit(MODULES)
         if not ctx.quick:
             ctx.lean_check_olean(MODULES)
-    evalenv.configure_cer_based()
+    E.configure(ctx.rng)  # evaluators: content-result based or evaluate_<key> methods, suspending under a random schedule half of the time
     runs = []
     for i in range(ctx.pick(120, 1200)):
         g = V.Gen(ctx.rng, depth=ctx.rng.randint(1, ctx.pick(3, 4)), branching=ctx.rng.randint(1, ctx.pick(3, 4)))
